@@ -10,7 +10,7 @@ import json
 import os
 import vlib
 
-PROPS = ['Rangers.Props.C03', 'Rangers.Props.C03Facts']
+PROPS = ['Rangers.Props.C03', 'Rangers.Props.C03Facts', 'Rangers.Props.C03Content', 'Rangers.Props.C03Fuel', 'Rangers.Props.C03Head']
 DRIVERS = ['C03']
 META = dict(
     level='proof',
@@ -99,3 +99,52 @@ def search(ctx, hints):
     if rc != 0:
         res['error'] = 'search harness exited %d: %s' % (rc, (se or so)[-800:])
     return res
+
+
+def replay(ctx, rec):
+    """bin/check C03 --replay replay/C03-n.json : re-execute the recorded scenario against the
+    implementation (oracle) and the model (diff of the op stream) and print both observations."""
+    import re
+    import shutil
+    r = rec.get('replay') or {}
+    cmd = r.get('cmd', '') if isinstance(r, dict) else ''
+    m_seed = re.search(r'VERIF_SEED=(\d+)', cmd)
+    m_mode = re.search(r'mode=(\w+)', cmd)
+    m_tier = re.search(r'tier=(\w+)', cmd)
+    m_only = re.search(r'only=(-?\d+)', cmd)
+    if not (m_seed and m_mode and m_only):
+        print(json.dumps(rec, indent=1)[:4000])
+        print('replay: no scenario recorded in this file (proof/correspondence breakage without a failing input)')
+        return 0
+    binp, log = vlib.go_build(ctx, vlib.HARNESS, './cmd/c03', 'c03')
+    if not binp:
+        print('replay: harness build failed:', log[-800:])
+        return 2
+    only = int(m_only.group(1))
+    args = ['mode=' + m_mode.group(1), 'tier=' + (m_tier.group(1) if m_tier else 'quick')]
+    args += ['corpusonly=1'] if only < 0 else ['only=%d' % only]
+    cwd = ctx.scratch('c03replay')
+    ops, obs, mod = (os.path.join(ctx.work, 'replay.' + x) for x in ('ops', 'obs', 'mod'))
+    env = dict(VERIF_SEED=m_seed.group(1), VERIF_TIER=ctx.tier, VERIF_CORPUS=os.path.join(vlib.VERIF, 'corpus', 'C03'))
+    rc, so, se = vlib.run([binp, 'ops=' + ops, 'obs=' + obs] + args, cwd=cwd, env=env, timeout=1200)
+    shutil.rmtree(cwd, ignore_errors=True)
+    print('recorded : key=%s  %s' % (rec.get('key'), str(rec.get('desc'))[:300]))
+    fails = [l for l in so.split('\n') if l.startswith('PROPERTY-FAILURE')]
+    print('implementation (oracle, scenario %d, seed %s): %d property failure(s)' % (only, m_seed.group(1), len(fails)))
+    for l in fails[:10]:
+        print('  ' + l[:400])
+    vlib.lake_build(['drv_c03'])
+    rc2, err2 = vlib.run_driver('C03', ops, mod)
+    d = vlib.diff_streams(ops, obs, mod, _canon)
+    print('model (drv_c03 on the same %d ops): %d mismatch(es), %d unmodelled' % (d['ops'], d['mismatches'], d['unmodelled']))
+    for f in d['first'][:5]:
+        print('  op   : ' + f['op'][:200])
+        print('  impl : ' + f['impl'][:200])
+        print('  model: ' + f['model'][:200])
+    steps = r.get('steps') or []
+    print('history (%d steps, last 25):' % len(steps))
+    for st in steps[-25:]:
+        print('  ' + str(st)[:200])
+    same = any(rec.get('key') and ('key=' + str(rec.get('key'))) in l for l in fails)
+    print('replay: recorded violation %s' % ('REPRODUCED' if same else ('not reproduced (other failures: %d)' % len(fails))))
+    return 1 if fails else 0
